@@ -81,11 +81,18 @@ CLAIMS = {
    tech="ownership / alias / effect analysis over go/ssa (origin tracing with field-sensitive callee summaries): who may write payload memory, what escapes through results, what is retained from parameters, which escaping closures write captured state",
    text="Decides: no function writes memory reached through Value.v, marker.realV/marks, unknownType.refinement or a typeImpl record of anything it did not allocate; nothing writes package-level state after init; no escaping closure writes a captured variable; a refinement record is never shared between a value and the mutable builder; every function returning a set returns a fresh bucket map and buckets are not shared while Add appends in place; exported accessors returning Go references return copies; exported constructors do not retain caller-owned slices/maps/pointers (documented transfers tabled). Exported functions of cty, convert and function do not write into slice or map arguments.",
    note="Not decided: actual schedules and the race detector's view; purity of application-supplied capsule operations; aliases laundered through interface-typed fields beyond the summaries' depth (recorded as assumed). "),
+
+ "C13": dict(rules=["C11.accessor-guards","C11.type-accessor-kinds","C11.negative-count","C11.shadowed-case","C17.error-branch-exits","C08.error-not-dropped","C19.kind-contradiction","C20.no-payload-write"],
+   tech="the Spec-driven typestate and the error / dead-branch / payload-write rules of C11 and C20, restricted by the anchor filter to the collection, set and sequence function files",
+   text="Decides only the clauses of this property that are visible in the shape of the functions' code, all of them necessary conditions of 'return what the reference returns and fail only outside the documented domain': no partial accessor is reached on a null argument or element the declarations admit (the call would fail with an internal panic inside the domain); counts handed to make / Repeat / slicing are tested for sign; no case of a tagless switch is shadowed by an earlier one (its dedicated result or error is dead); an error branch does not fall through and no constructed or stored error is dropped (a failure does not become a silent wrong result); type accessors are called only for the kinds the function's own guards admit; no function writes into the payload of its argument (a later call on the same value would differ). Reported only for constructs in the files this property is anchored in.",
+   note="Not decided — and this is most of the property: agreement of the computed values with a reference implementation (index arithmetic, ordering conventions, element selection, result type selection as a value fact). No rule here evaluates a function. "),
+ "C14": dict(rules=["C11.accessor-guards","C11.float-nan","C11.nil-on-infinity","C11.negative-count","C11.shadowed-case","C17.error-branch-exits","C08.error-not-dropped","C16.narrowing-exact","C18.bigfloat-exact-init"],
+   tech="the totality rules of C11 plus the exactness rules for math/big narrowing and initialisation, restricted by the anchor filter to the number, string, encoding and date function files",
+   text="Decides only structural necessary conditions of 'agree with the reference and fail only outside the documented domain': a float64 that can be NaN does not reach NumberFloatVal, (*big.Float).Int is not dereferenced for an infinity, counts are tested for sign before Repeat / make / slicing (each would be an internal panic for an in-domain argument); a number narrowed to a machine type is used only where the narrowing was tested exact, and a big.Float that receives an integer has no fixed 53-bit precision (silent rounding of an in-domain number); no switch case is shadowed; no error branch falls through and no error is dropped. Reported only for constructs in the files this property is anchored in.",
+   note="Not decided — and this is most of the property: numerical agreement with math/big / float64 references, grapheme-cluster counting, the printf verb grammar (a generated state machine), RFC 3339 parsing, agreement with encoding/json, encoding/csv and time. No rule here evaluates a function. "),
 }
 
 NA = {
- "C13": "Differential agreement of collection/set/sequence functions with a reference over all argument lists: every clause is about computed runtime values (index arithmetic, orderings); no structural necessary condition beyond the guard discipline claimed under C11/C12.",
- "C14": "Agreement of numeric/string/encoding/date functions with math/big, strings, encoding/*, time and grapheme segmentation over all inputs, incl. a generated FSM: value-level throughout; the only static proxy would match generated table contents (a frozen fragment).",
 }
 NOT_BUILT = "rules for this property are designed in DESIGN.md but not built yet; not claimed until they run"
 
@@ -117,7 +124,7 @@ def main():
     props = [json.loads(l)["id"] for l in open(os.path.join(V, "properties.jsonl"))]
     checks, na = [], []
     for p in props:
-        if p in CLAIMS and p in have:
+        if p in CLAIMS and (p in have or p in runs):
             c = CLAIMS[p]
             missing = [r for r in c.get("rules", []) if r not in ruleids]
             if missing:
